@@ -138,7 +138,11 @@ def _construct_graph(args, kwargs, func, backend=None):
     # dot.render(filename="~/graph1", format="pdf", cleanup=True)
 
     # Optimize graph
-    graph = tracer.optimize(graph, optimizations=backend.optimizations)
+    optimized_graph = tracer.optimize(graph, optimizations=backend.optimizations)
+    if isinstance(optimized_graph, tracer.Graph):
+        graph = optimized_graph
+    # Otherwise the whole operation was inlined to a single backend function: keep the function definition
+    # so that the returned code shows (and is) the call that is executed.
 
     # from einx._src.tracer.visualize import visualize # TODO: remove
     # dot = visualize(graph)
